@@ -26,7 +26,7 @@ let run (line : string) : string =
              (match String.split_on_char '.' (String.sub op 1 (String.length op - 1)) with
               | [p; n] ->
                   let p = int_of_string p and n = int_of_string n in
-                  if kind <> 'd' then begin
+                  if kind <> 'd' && kind <> 'u' then begin
                     Hashtbl.replace kinds (p, n) kind;
                     let (q', out) = submit !q (nat_of_int p, nat_of_int n) in
                     q := q';
